@@ -3,6 +3,8 @@
 package world
 
 import (
+	mrand "math/rand"
+	mrand2 "math/rand/v2"
 	"time"
 
 	"github.com/hedzr/is/stringtool"
@@ -27,6 +29,10 @@ func (w *W) attach() {
 	slog.VerifMapOrder = w.mapOrder
 	slog.VerifYield = func(site int) { w.yield(ySiteFine + site) }
 	slog.VerifLock = lockHook{w}
+	// randomness the library draws itself (none on the pinned tree, where names come from a generator
+	// seeded with the clock): one stream per episode, from the episode's seed
+	slog.VerifRand = mrand.New(mrand.NewSource(int64(w.sc.Seed)))
+	slog.VerifRand2 = mrand2.New(mrand2.NewPCG(w.sc.Seed, 0x9e3779b97f4a7c15))
 }
 
 func (w *W) detach() {
@@ -36,6 +42,8 @@ func (w *W) detach() {
 	slog.VerifMapOrder = nil
 	slog.VerifYield = nil
 	slog.VerifLock = nil
+	slog.VerifRand = nil
+	slog.VerifRand2 = nil
 }
 
 var _ = time.Now
